@@ -228,6 +228,30 @@ def tlaps(module, workdir, timeout=600):
         shutil.rmtree(d, ignore_errors=True)
 
 
+def apalache_inductive(module, workdir, init="BInit", ind_init="InvInit", nxt="BNext", inv="Inv", extra=("Bracket.tla",), timeout=600):
+    """Check with Apalache (symbolic, unbounded integers) that `inv` of spec/apalache/<module>.tla is inductive:
+    base case init => inv (length 0) and step ind_init /\ next => inv' (length 1). Returns (ok, output)."""
+    d = tempfile.mkdtemp(prefix="apalache-", dir=workdir)
+    try:
+        shutil.copy(os.path.join(SPEC, "apalache", module + ".tla"), d)
+        for f in extra:
+            shutil.copy(os.path.join(SPEC, f), d)
+        outs = []
+        for i, length in ((init, 0), (ind_init, 1)):
+            try:
+                r = subprocess.run(["apalache-mc", "check", "--init=" + i, "--next=" + nxt, "--inv=" + inv, "--length=%d" % length, module + ".tla"],
+                                   cwd=d, stdout=subprocess.PIPE, stderr=subprocess.STDOUT, text=True, timeout=timeout)
+                out = r.stdout
+            except subprocess.TimeoutExpired:
+                out = "TIMEOUT"
+            outs.append(out[-1500:])
+            if "The outcome is: NoError" not in out:
+                return False, "\n".join(outs)
+        return True, "\n".join(outs)
+    finally:
+        shutil.rmtree(d, ignore_errors=True)
+
+
 def unescape_csv_json_line(line):
     line = line.strip()
     if line.startswith('"') and line.endswith('"'):
